@@ -91,6 +91,11 @@ pub fn seeded_input(rng: &mut Rng, fmt: Fmt, tag: u64) -> (Vec<u8>, &'static str
             _ => {}
         }
     }
+    if rng.chance(1, 12) {
+        let mut b = gen::wf(rng, fmt, &opts).2;
+        gen::insert_foreign_token(rng, &mut b);
+        return (b, "foreign-token");
+    }
     match rng.below(8) {
         0 | 1 | 2 => (gen::wf(rng, fmt, &opts).2, "wf"),
         3 | 4 => {
